@@ -77,6 +77,8 @@ def data_path(r):
         return "me." + u
     if f == "framer":
         return "framer.%s.%s" % (r["n1"], u)
+    if f == "actor" and (r["n1"], r["n2"], r["n3"]) == ("me", "me", "me"):
+        return "framer.me.frame.me.actor.me." + u
     raise ValueError(f)
 
 
@@ -94,7 +96,7 @@ def act_line(a, idx, last):
         return "preacts", "state", "go %s if %s == %d" % (last, ref_text(r, alt), idx)
     if v == "do":
         an = list(a["an"])
-        an[0] = "%s%d" % (an[0], idx)
+        an[-1] = "%s%d" % (an[-1], idx)     # deed instances are numbered (on the last token) to keep their names unique
         if r["form"] == "inode":
             return "enacts", "inode", "do doer param as %s at enter%s per color vfq" % (" ".join(an), via(a["ai"]))
         return "enacts", "color", "do doer param as %s at enter%s per color %s" % (" ".join(an), via(a["ai"]), data_path(r))
@@ -105,8 +107,8 @@ def seg_text(seg, a, idx):
     t, n, g = seg
     if t == "clone":
         return "%s_%s" % (n, g)
-    if t == "actor" and a["verb"] == "do" and a["an"] and n == a["an"][0]:
-        return "%s%d" % (n, idx)          # deed instances are numbered to keep their names unique in the frame
+    if t in ("actor", "apart") and a["verb"] == "do" and g == "last":
+        return "%s%d" % (n, idx)          # the number the printer put on the last token of the deed's name
     return n
 
 
@@ -155,7 +157,7 @@ def script(c, acts):
 
 def renamings(c):
     return ([("framer", c[k]) for k in ("F", "G", "S")] + [("frame", c[k]) for k in ("f0", "f1", "g1", "s0", "s1")]
-            + [("tag", c["tag"]), ("actor", c["A"]), ("actor", "work")])
+            + [("tag", c["tag"]), ("actor", c["A"]), ("actor", "work"), ("actor", "n"), ("actor", "s")])
 
 
 def _ren(rho, kind, n):
